@@ -42,12 +42,18 @@ TRUSTED = ["Lean 4.33 kernel", "axioms: propext, Classical.choice, Quot.sound on
            "checks/harness/c05.py generators, reference parser and comparison",
            "Lean model Exetera/Model/Csv.lean mirrors csv_reader_speedup.py / field_importers.py / parsers.py by hand",
            "tools/translate_csv.py (byte constants, window factor, regrowth factor, indexed-string field size)"]
-LEVEL_TEXT = ("Kernel-checked theorems about the executable model of fast_csv_reader / read_file_using_fast_csv_reader / "
-              "IndexedStringImporter / read_csv_with_schema_dict, for all well-formed files and all sizes, when the file is read in "
-              "one window; chunk independence (several windows, buffer regrowth) is validated by exhaustive small-scope and random "
-              "differential execution of model and code, not proved.")
-LEVEL_NOTE = ("window_chunking_unobservable and regrowth_unobservable are stated in Props/C05.lean but not proved (see the "
-              "comments there); their support is the correspondence run only.")
+LEVEL_TEXT = ("Kernel-checked theorems, for all well-formed files of any size, about the executable model of fast_csv_reader / "
+              "read_file_using_fast_csv_reader / IndexedStringImporter / read_csv_with_schema_dict: (1) one kernel call on any window "
+              "of the supported regime (complete records followed by any prefix of the next record, entered at any record boundary) "
+              "reports exactly the complete records, resumes at the start of the unfinished one, touches no memory outside its "
+              "arrays and terminates; (2) the whole import equals the reference records when the file is read in one window and no "
+              "staging buffer fills; (3) include/exclude select exactly the named columns. The driver's loop over several windows and "
+              "the buffer regrowth are validated by exhaustive small-scope and random differential execution of model, code and "
+              "reference parser, not proved.")
+LEVEL_NOTE = ("window_chunking_unobservable and regrowth_unobservable are stated in Props/C05.lean (comment) but only their kernel half "
+              "(fsm_window_eq_spec, fsm_split_at_record_end) is proved; the induction over driver iterations and the early return on a "
+              "full buffer are supported by the correspondence run only. The model mirrors the code with fix patches D26, NC05a, "
+              "NC05b, D27 applied.")
 TECHNIQUE = "Lean 4 theorems over an executable model + differential correspondence with the real code"
 EXPLANATION = ""
 
